@@ -943,6 +943,25 @@ func (x *Exec) evalMethod(env *SpecEnv, e EMethod) Val {
 						}
 						return Val{T: x.convertTerm(env.cur, v.T, v.Typ, tn.Type()), Typ: tn.Type()}
 					}
+					if h, ok := libCalls[imp.Path()+"."+e.Name]; ok {
+						// a library function with a built-in model (e.g. time.Unix)
+						if fo, isFn := imp.Scope().Lookup(e.Name).(*types.Func); isFn {
+							sig := fo.Type().(*types.Signature)
+							var args []Val
+							for i, a := range e.Args {
+								av := x.evalVal(env, a)
+								if i < sig.Params().Len() {
+									av = x.coerce(av, sig.Params().At(i).Type())
+								}
+								args = append(args, av)
+							}
+							var rt types.Type = sig.Results()
+							if sig.Results().Len() == 1 {
+								rt = sig.Results().At(0).Type()
+							}
+							return h(x, nil, env.cur, nil, nil, args, rt)
+						}
+					}
 					if fn := x.findPkgFunc(imp, e.Name); fn != nil && fn.Blocks != nil {
 						var args []Val
 						for i, a := range e.Args {
